@@ -195,6 +195,10 @@ MNode(path, dtype, shape, has, val, unit, const, decl, rhas, raw, rawd, ref, lsl
    decl |-> decl, rhas |-> rhas, raw |-> raw, rawd |-> rawd, ref |-> ref, lsl |-> lsl,
    modified |-> FALSE, sliced |-> sliced]
 
+\* cast_value checks value.shape[d] only for the axes the node declares (extra axes pass); a node without
+\* dimension takes scalars only
+DimOk(vshape, nshape) == IF nshape = <<>> THEN vshape = <<>>
+                         ELSE Len(vshape) >= Len(nshape) /\ SubSeq(vshape, 1, Len(nshape)) = nshape
 RawShape(dtype, raw, rawd) == IF dtype = "str" THEN <<>> ELSE ShapeD(raw, rawd)
 
 MDefine(S, t) ==
@@ -205,7 +209,7 @@ MStore(S, j, v) == [S EXCEPT !.nodes[j].val = v, !.nodes[j].has = TRUE, !.nodes[
 
 \* the slice left over in node.value_slice cuts whatever the node casts next (and loses one more axis)
 LeftCut(n, v, d) == LET res == MSlice(v, d, n.lsl) IN
-                    [ok |-> res.ok /\ ShapeD(res.v, res.d) = n.shape, v |-> res.v]
+                    [ok |-> res.ok /\ DimOk(ShapeD(res.v, res.d), n.shape), v |-> res.v]
 
 \* target.modify_value(modifier): the modifier carries value_raw (rhas, raw with rawd axes) and units_raw u
 MAssignRaw(S, j, rhas, raw0, rawd0, u) ==
@@ -219,7 +223,7 @@ MAssignRaw(S, j, rhas, raw0, rawd0, u) ==
   IF n.const THEN Rej(S)                                            \* checked in DIP.parse before modify_value
   ELSE IF ~rhas /\ ~n.has THEN Rej(S)                               \* None.copy()
   ELSE IF ~cut.ok THEN Rej(S1)                                      \* IndexError / dimension check after the leftover slice
-  ELSE IF n.lsl = <<>> /\ RawShape(n.dtype, raw, rawd) # n.shape THEN Rej(S)   \* dimension check / dtype('[..]') raises
+  ELSE IF n.lsl = <<>> /\ ~DimOk(RawShape(n.dtype, raw, rawd), n.shape) THEN Rej(S)   \* dimension check / dtype('[..]') raises
   ELSE IF ~Numeric(n.dtype) THEN MStore(S1, j, cut.v)
   ELSE IF n.unit = "" \/ u = "" \/ u = n.unit THEN MStore(S1, j, cut.v)  \* NumberType.convert: nothing to do
   ELSE IF n.shape # <<>> THEN Rej(S1)                               \* float(array) raises in NumberType.convert
@@ -261,7 +265,7 @@ MInject(S, snap, md, ln) ==
        ELSE IF ln.sl # <<>> /\ r.dtype = "str" THEN Tag(Rej(S1), {"inject.slice_string"})   \* json.loads(text) raises
        ELSE LET res == MSlice(r.raw, r.rawd, ln.sl) IN
             IF ~res.ok THEN Rej(S1)
-            ELSE IF ResShape(r.dtype, res) # ln.shape THEN Rej(S1)  \* dimension check / "Array value set to scalar node"
+            ELSE IF ~DimOk(ResShape(r.dtype, res), ln.shape) THEN Rej(S1)  \* dimension check / "Array value set to scalar node"
             ELSE [S1 EXCEPT !.nodes = Append(@, MNode(ln.host, ln.dtype, ln.shape, TRUE,
                                                       ResVal(r.dtype, r.rawd, res), u, FALSE, FALSE,
                                                       TRUE, r.raw, r.rawd, ref, lsl, ln.sl # <<>>))]
